@@ -116,4 +116,22 @@ theorem namedChildren_resolves : ∀ cs : List (String × Mod), namesOkChildren 
       simpa [childAt?, hne] using hres
 end
 
+theorem dedupFirst_nodup (l : List (List String × Mod)) (seen : List Nat)
+    (hn : (l.map fun pm => pm.2.rootId).Nodup) (hs : ∀ pm ∈ l, pm.2.rootId ∉ seen) :
+    dedupFirst l seen = l := by
+  induction l generalizing seen with
+  | nil => rfl
+  | cons pm rest ih =>
+    simp only [List.map_cons, List.nodup_cons] at hn
+    have h1 : seen.contains pm.2.rootId = false := by
+      simpa using hs pm (by simp)
+    simp only [dedupFirst, h1]
+    rw [ih (pm.2.rootId :: seen) hn.2 (by
+      intro qm hq
+      simp only [List.mem_cons, not_or]
+      refine ⟨?_, hs qm (by simp [hq])⟩
+      intro e
+      exact hn.1 (by rw [← e]; exact List.mem_map_of_mem hq))]
+    simp
+
 end Quanto
